@@ -271,8 +271,8 @@ theorem step_s0_inv (orc : Oracle) (m : PM) (f : Frame) (rest : List Frame) (tok
       split
       · inv_auto hd hi hr
       · simp only [runValid_spec]
-        have hp2 : Clear { writeBack p f' with cfg := (writeBack p f').cfg.setLine f'.cfg.line } := clear_writeBack p f' hp
-        generalize ({ writeBack p f' with cfg := (writeBack p f').cfg.setLine f'.cfg.line } : Frame) = p2 at hp2 ⊢
+        have hp2 : Clear { writeBack p f' with cfg := (writeBack p f').cfg.afterSection f'.cfg } := clear_writeBack p f' hp
+        generalize ({ writeBack p f' with cfg := (writeBack p f').cfg.afterSection f'.cfg } : Frame) = p2 at hp2 ⊢
         cases validVerdict orc ((m.addDiags f ds).addCalls ev).k p2 with
         | none => simp only [Option.map_none]; exact invM_reject _ _ _ hp2.inv hrs
         | some cs =>
